@@ -50,10 +50,16 @@ def gen_join_scenario(rng, variant, tier, style=None, stop=False):
         inacc = rng.choice([0, 1, 10, 25, 33, 34, 50, 51, 100])
         if v1:
             inacc = rng.choice([0, 25, 34, 50, 51, 100])
+        if rng.random() < 0.3:
+            # Timeout NOT divisible by floor(100/inaccuracy): the ticker interval is truncated (still an even number of units)
+            T, inacc = rng.choice([(2000, 30), (1400, 33), (2000, 33), (1000, 14), (2600, 30), (1000, 30)])
+            T *= unit
     if rng.random() < 0.04:
         # the malformed stream: constructor arguments that must be rejected (or just accepted) -- compared with the model
         T = rng.choice([1, 3, 99, 100, 9_999_999, 10_000_000, 39_999_999, 40_000_000, 1_000_000_000])
         inacc = rng.choice([0, 1, 25, 50, 100, 101, 150, 1000])
+    if style == "bigjoin":
+        T, inacc = rng.choice([0, 0, 2400 * unit]), 25
     ivl, div = interval_of(T, inacc, v1)
     if ivl is None:
         style = "ctor-error"
@@ -63,8 +69,14 @@ def gen_join_scenario(rng, variant, tier, style=None, stop=False):
         # many slices, most of them full, with the occasional timeout slice in between
         J = rng.choice([2, 3, 4])
         n = rng.choice([40, 70, 120]) if tier == "quick" else rng.choice([70, 150, 300])
+    if style == "bigjoin":
+        # JoinSize beyond any plausible preallocation limit: a few thousand elements arriving at once
+        J = rng.choice([1030, 1500, 2600])
+        n = 2 * J + rng.randrange(1, J)
     Tm = max(T, 40 * unit)
     gaps = [0, 0, 0, 2 * unit, 20 * unit, Tm // 2, Tm, Tm + (ivl or 0), 3 * Tm]
+    if style == "bigjoin":
+        gaps = [0]
     if style == "trickle":
         gaps = [Tm // (J + 1) // 2 * 2, Tm // 4, Tm // 2, Tm // 3 // 2 * 2]
     if style == "long":
@@ -77,6 +89,12 @@ def gen_join_scenario(rng, variant, tier, style=None, stop=False):
         else:
             ln = 1
         prod.append((d, ln))
+    if style == "bigjoin" and variant == 1:
+        prod, total = [], 0
+        while total < n:
+            ln = rng.choice([J // 3, J // 2, 1, 7, J - 1, J // 5])
+            prod.append((1 if not prod else 0, ln))
+            total += ln
     if style == "blockedwrite" and T > 0:
         # the consumer stalls after the first slice, the producer fills the output buffer so that a write blocks, then a
         # sparse tail follows: a short slice right after the blocked write completed, silence, one more element, close
@@ -111,6 +129,15 @@ def gen_join_scenario(rng, variant, tier, style=None, stop=False):
             first_out = sum(d for d, _ in prod[:J])
             cons = [(first_out + 50 * Tm, 0)]
             stop_at = (first_out + rng.choice([2, 6, 20]) * unit) // 2 * 2 + 7
+        if stop == "closedfull":
+            # copy mode, a consumer that takes the first slice and then stalls: the second full slice sits unread in the output
+            # buffer, a partial slice is accumulated, the input is closed (the final flush cannot be written), then Stop()
+            nocopy = False
+            k = rng.randrange(1, J) if J > 1 else 1
+            prod = [(1, 1)] + [(0, 1)] * (2 * J + k - 1)
+            cons = [(0, 50 * Tm)]
+            close_after = 2 * unit
+            stop_at = (1 + close_after + rng.choice([2, 6, 20]) * unit) // 2 * 2 + 7
     enc = enc_join(variant, J, nocopy, T, inacc, icap, close_after, stop_at, prod, cons, capextra=capextra)
     meta = {"variant": ["join-v2", "unite-v2", "join-v1"][variant], "J": J, "nocopy": nocopy, "T": T, "inaccuracy": inacc,
             "interval": ivl, "divider": div, "icap": icap, "close_after": close_after, "prod": prod, "cons": cons, "style": style, "capextra": capextra, "stop_at": stop_at}
@@ -241,12 +268,20 @@ def gen_limit_scenario(rng, tier, style=None):
         Q = rng.choice([2 ** 63 - 1, 2 ** 63, 2 ** 64 - 1, 2 ** 32 + 1])     # the full uint64 range of Rate.Quantity
     I = rng.choice([1000, 10 ** 6, 10 ** 9])
     icap = rng.choice([0, 0, 1, 3, min(Q, 8), min(2 * Q, 16)])
+    huge_ok = style is None
     style = style or rng.choice(["upfront", "upfront", "trickle", "stall-burst", "random", "slowcons"])
     if style == "slowcons" and rng.random() < 0.5:
         icap = 0        # the output buffer is a single slot: a busy consumer makes the discipline block inside a batch
     k = rng.randrange(0, 5)
     N = rng.choice([0, max(Q - 1, 0), Q, k * Q, k * Q + 1, max(k * Q - 1, 0), rng.randrange(0, 40)]) if Q <= 100 else rng.randrange(0, 40)
     N = min(N, 60 if tier == "quick" else 400)
+    if huge_ok and rng.random() < 0.06:
+        # Intervals of years (time.Duration reaches 292 years): products such as Interval*100 leave int64
+        Q = rng.choice([1, 2, 3])
+        I = rng.choice([95 * 10 ** 15, 32 * 10 ** 16, 12 * 10 ** 17])
+        N = rng.choice([Q, 2 * Q, 2 * Q + 1, 3 * Q])
+        style = "upfront"
+        icap = rng.choice([0, 1, Q])
     if style == "upfront":
         delays = [0] * N
     elif style == "trickle":
@@ -264,6 +299,8 @@ def gen_limit_scenario(rng, tier, style=None):
         for idx in sorted(rng.sample(range(N), min(N, rng.randrange(1, 4)))):
             cons.append((idx, rng.choice([I // 2, 3 * I, 7 * I])))
     close_after = rng.choice([0, 1, I // 2, 3 * I])
+    if I > 10 ** 15:
+        close_after = rng.choice([0, 1, I // 2])
     enc = enc_limit(Q, I, icap, close_after, delays, cons)
     meta = {"Q": Q, "I": I, "icap": icap, "N": N, "delays": delays, "cons": cons, "close_after": close_after, "style": style,
             "upfront": all(d == 0 for d in delays), "prompt": not cons}
@@ -278,6 +315,9 @@ def join_generate(variants, styles=None):
         for variant in variants:
             for _ in range(n):
                 out.append(gen_join_scenario(rng, variant, tier, style=rng.choice(styles) if styles else None))
+            if True:
+                for _ in range(4 if tier == "quick" else 40):
+                    out.append(gen_join_scenario(rng, variant, tier, style="bigjoin"))
         return out
     return generate
 
@@ -561,7 +601,7 @@ def join_stop_variants(sc):
 def join_stop_generate():
     def generate(rng, tier):
         n = 240 if tier == "quick" else 3000
-        return [gen_join_scenario(rng, 2, tier, stop=("unreleased" if i % 3 == 0 else True)) for i in range(n)]
+        return [gen_join_scenario(rng, 2, tier, stop=("unreleased" if i % 3 == 0 else ("closedfull" if i % 7 == 1 else True))) for i in range(n)]
     return generate
 
 
